@@ -199,4 +199,31 @@ theorem defaultMinSize_le (avg : Rat) (h : 0 ≤ avg) : (defaultMinSize avg : Ra
   push_cast
   linarith
 
+/-- the bins `_split_targets` makes of one region `m`: `nbinsOf avg m = max 1 (round (len/avg))` of
+    them, consecutive from `m.s` to `m.e`, sizes within one base of each other, fields of `m` -/
+theorem region_bins_spec (avg : Rat) (m : Row) (hm : m.s ≤ m.e) :
+    let bins := if nbinsOf avg m = 1 then [m] else splitInto m (nbinsOf avg m)
+    bins.length = nbinsOf avg m ∧ Tiles bins m.s m.e ∧
+    (∀ a ∈ bins, ∀ b ∈ bins, (a.e - a.s) - (b.e - b.s) ≤ 1) ∧
+    (∀ a ∈ bins, a.chrom = m.chrom ∧ a.gene = m.gene) := by
+  intro bins
+  have hpos := nbinsOf_pos avg m
+  by_cases h1 : nbinsOf avg m = 1
+  · have hb : bins = [m] := by simp [bins, h1]
+    rw [hb, h1]
+    refine ⟨rfl, ⟨rfl, hm, rfl⟩, ?_, ?_⟩
+    · intro a ha b hb'
+      simp only [List.mem_singleton] at ha hb'
+      subst ha; subst hb'; omega
+    · intro a ha
+      simp only [List.mem_singleton] at ha
+      subst ha; exact ⟨rfl, rfl⟩
+  · have hb : bins = splitInto m (nbinsOf avg m) := by simp [bins, h1]
+    rw [hb]
+    refine ⟨by simp [splitInto], splitInto_tiles m _ hpos hm, ?_, splitInto_fields m _⟩
+    intro a ha b hb'
+    have h2 := splitInto_sizes m _ hpos a ha
+    have h3 := splitInto_sizes m _ hpos b hb'
+    omega
+
 end CnvVerif
